@@ -3542,6 +3542,10 @@ class QuicConnection:
                 else 0
             )
         )
+        if builder.remaining_flight_space < frame_overhead:
+            # There is no room for the frame header. Do not ask the stream for a
+            # frame: a FIN-only frame would be consumed and could not be written.
+            return 0
         previous_send_highest = stream.sender.highest_offset
         frame = stream.sender.get_frame(
             builder.remaining_flight_space - frame_overhead, max_offset
